@@ -819,6 +819,9 @@ class Spec:
     def glom(self, target, **kw):
         scope = dict(self.scope)
         scope.update(kw.get('scope', {}))
+        # when the scope of a running call is passed (First hands S to its
+        # key spec) this flat copy is not itself a chained step
+        scope.pop(NO_PYFRAME, None)
         kw['scope'] = ChainMap(scope)
         glom_ = scope.get(glom, glom)
         return glom_(target, self.spec, **kw)
